@@ -2313,6 +2313,26 @@ fn many_names(r: &mut Rng, n: usize) -> Vec<Sym> {
     v
 }
 
+/// T2 case `cnt <n>`: n root questions into a Vec without compressor; observed:
+/// qdcount, message length, result of push number n.
+fn count_case(out: &mut Out, n: u32) {
+    let case = format!("cnt {}", n);
+    out.begin(&case);
+    let mut b = MessageBuilder::new_vec().question();
+    let root = Name::root_vec();
+    let mut last = "ok";
+    for _ in 0..n {
+        last = match b.push((&root, Rtype::from_int(1), Class::from_int(1))) {
+            Ok(()) => "ok",
+            Err(PushError::CountOverflow) => "count",
+            Err(PushError::ShortBuf) => "short",
+            Err(PushError::LimitExceeded) => "limit",
+        };
+    }
+    let obs = format!("CNT C={} N={} R={}", b.counts().qdcount(), b.as_slice().len(), last);
+    out.case(&case, &obs, true, "v.n.count");
+}
+
 // -------------------------------------------------------------------- main
 
 fn main() {
@@ -2392,6 +2412,13 @@ fn main() {
         idx += 1;
         if out.wants(idx) {
             count_overflow(&mut out);
+        }
+        // the same ceiling as T2 cases: the model side is count arithmetic
+        for n in [65535u32, 65536, 65600] {
+            idx += 1;
+            if out.wants(idx) {
+                count_case(&mut out, n);
+            }
         }
     }
     out.finish(&[("scripts_times_compressors", format!("{}", idx))]);
